@@ -34,6 +34,8 @@ func runC01(c *Ctx) {
 	c02ReadyNames(c, m, "C01.sink")
 	// each value is the SUM over the week's files, and every local entry takes part in it
 	c07AccumulateAs(c, m, "C01.body")
+	// … over files parsed afresh by this run (no process-wide cache of parsed files)
+	c07CacheScopeAs(c, m, "C01.body")
 }
 
 const rateAcc = cfgRecv + "Rate"
